@@ -14,6 +14,8 @@ def run(ctx):
     for k, cfg in enumerate(cases):
         jobs.append(dict(cfg=cfg))
         jobs.append(dict(cfg=cfg, construction="yaml", yaml_order="reversed", debug=(k % 2 == 0)))
+        if k % 2 == 0:      # the command-line entry point pyxel.run(<file>), with and without an outputs section
+            jobs.append(dict(cfg=cfg, construction="run-file", extra={"with_outputs": k % 4 == 0}))
     traces = P.record(jobs)
     ctx.cov["replayed_cases"] += len(traces)
     ctx.sample({"cfg_fault": [m for g in jobs[9]["cfg"]["pipe"] for m in g if m["kind"] == "raise"],
